@@ -101,6 +101,25 @@ check('C18',
       'markers as harness closures, expected text from a reference renderer. E2: Kani kernel K4 — set_<kind>/get_<kind> agree on the key and kinds do not alias, for all nine kinds.',
       TRUST + ' HashMap modelled as association list (Hash not modelled).', 'symbolic execution of rustc MIR + Kani kernel', 'DESIGN.md section 5 C18', engine='mirsym+kani-kernels')
 
+check('C08',
+      '(a) Kani kernel K1 on InfixOpManager::get_precidence: symbolic precedence in [1,10^9] and associativity; the parser\'s two recursion gates order operators exactly as registered, adjacent precedences included, no overflow. '
+      '(b) E1: chain/mixed templates over operators registered through the real register_infix_op with symbolic attributes, followed by a re-registration with fresh symbolic attributes and a second parse (stale-cache detection). '
+      '(c) E1 histories: every sequence of <= 3 (quick) / 4 (thorough) steps from 9 step kinds (register / re-register / override of built-in function, prefix, infix, postfix, new infix adjacent to `+`, probe) starting from a process in which the engine is unused (init once-cell Empty), '
+      'then probes of every name under an empty context, a context function `f`, and a variable `f`; observed handler tag must be the last registered one.',
+      TRUST + ' OnceCell modelled as run-once; HashMap insert replaces.', 'Kani kernel + symbolic execution of rustc MIR with z3 over registration histories', 'DESIGN.md section 5 C08', engine='mirsym+kani-kernels')
+
+check('C09',
+      'Bounded symbolic execution: (L) literal texts of <= 5 (quick) / 7 (thorough) symbolic bytes over `0-9 . e E` and exponent-sign forms: the evaluated Number must have exactly the digits and scale written (oracle computed from the input bytes in the harness), every non-literal rejected; '
+      '(A) `L1 OP L2` and compound-assignment forms with symbolic digits, scales 0..2 (0..4), for + - * % < <= > >= == !=: z3 validity of equality with the integer-arithmetic reference; trailing-zero variants compare equal. '
+      'If a binary floating point conversion is reached on the data path (not interpretable by the encoder) a battery of 26 decimal cases with inexact f64 images is replayed natively.',
+      TRUST + ' Decimal::from_str grammar model for inputs < 18 bytes.', 'symbolic execution of rustc MIR with z3; integer-arithmetic oracle', 'DESIGN.md section 5 C09')
+
+check('C11',
+      'Relational bounded symbolic execution: (A) for every accepted input of <= 3 (4) arbitrary UTF-8 bytes and <= 3 (4) structural-alphabet slots, every token boundary (spans observed at Tokenizer::next) x {space, tab, CR, LF} inserted, and every existing whitespace byte doubled / replaced, '
+      'is re-parsed under the same path condition; z3 proves the two ASTs equal (strings by content over the shared byte variables). (B) for ~120 template programs over operators with symbolic precedence/associativity every complete subexpression (ranges from the reference parser under the same path condition) '
+      'is wrapped in 1 and 2 pairs of parentheses; the AST must not change.',
+      TRUST + ' Names that are operator words are excluded by an assumption, as in the property.', 'relational symbolic execution of rustc MIR with z3', 'DESIGN.md section 5 C11')
+
 import sys
 props = [json.loads(l) for l in open('/verif/properties.jsonl')]
 for p in props:
